@@ -17,6 +17,16 @@ CHECKS = {
          "On every input of the C01 text-level spaces (and the scaling families) both entry points' trees are walked completely: root kind and range, leaves spelling the input byte for byte, every node's children tiling its range without gap or overlap, empty nodes having empty ranges.",
          "Inputs on which parsing does not return are C01's and are skipped (counted). rowan's range arithmetic is trusted.",
          "DESIGN.md section 7, C02"),
+ "C04": ("exploration",
+         "bounded exhaustive enumeration of derivations of a reference grammar, each under every printing, through both parse entry points",
+         "All spines of <= 2 (thorough 3, and 4-5 over the reduced context set) compound-statement contexts (16 contexts: each body of if/else/while/for/case/default/gate/def as block or single statement) around ~65 leaf statement templates, all sequences of 2 (thorough 3) statements, all two- and three-operator expression trees over 19 binary and 3 unary operators in 12 expression positions, printed with minimal, full and redundant parentheses and 7 uniform separator flavours; any diagnostic of SourceFile::parse or parse_check_lex is a violation. Every context x construct pair is present by construction.",
+         "The claimed grammar is listed in DESIGN.md 4.4. Four genuine rejections are recorded as known findings keyed by message + construct; two were repaired by fix: commits.",
+         "DESIGN.md section 7, C04"),
+ "C05": ("exploration",
+         "bounded exhaustive enumeration of model programs; S-expression read through the public typed accessors compared with the model's derivation",
+         "On the program spaces of C04 (all 361 ordered operator pairs in both groupings, all three-operator trees, unary x binary x postfix mixes, every statement template in every block/non-block body combination) the S-expression extracted from the typed AST only through public accessors (BinExpr::lhs/rhs/op_kind, IfStmt::true_body/false_body, ForStmt, Gate::angle_params/qubit_params, Def, RangeExpr::start_step_stop, modifiers, arguments, operands ...) must equal the model's, role by role. The precedence table is data in the harness and self-tested.",
+         "Programs the parser rejects are skipped (C04's). Two defects (precedence table, if/else accessors) were repaired by fix: commits; two are recorded as known findings.",
+         "DESIGN.md section 7, C05"),
  "C11": ("exploration",
          "bounded exhaustive splicing of malformed lexemes at every position of every short token sequence; gating relations checked on every token sequence through the full pipeline",
          "35 malformed spellings in 8 classes (unterminated strings, bit strings and comments, base prefixes without digits, exponents without digits, malformed version headers, identifiers with forbidden characters) are spliced at every gap of every sequence of <= 2 tokens over the full token alphabet; the lexical diagnostic must sit on the spliced lexeme. Every sequence of <= 3 tokens (with malformed variants) goes through parse_check_lex (tree iff no lexical diagnostic; diagnostics all lexical or all syntactic) and through parse_source_string (any_syntax_errors iff a syntax diagnostic; then empty program and no semantic diagnostics; otherwise analysis ran).",
